@@ -26,7 +26,7 @@ func (c18) Budget(tier string) (int, int) {
 	return 150000, 90
 }
 func (c18) Rule() string {
-	return fmt.Sprintf("stage A (deterministic): 2-6 tasks, each a real goroutine with private Buffer / ValueReader / destinations / Decode targets executing 1-5 operations drawn from the whole exported API on 1-4 SHARED read-only documents; half of the scenarios make all tasks run the same function. The library is an AST-instrumented copy of /repo's working tree with a yield at every function entry, loop body and Ragel state label (%d sites in this build); simulator-owned handler callbacks run between yields. Exactly one task is runnable; the schedule tape names which task runs next and for how many yields (quantum 1..256). Oracle: every operation's outcome equals its outcome when the same scenario runs one task after another in the same binary; shared documents unchanged. Non-trivial: at least one task switch landed inside a library call; distinct = distinct hashes of the (task, yield-site kind) switch sequence plus operations.", len(rjson.VerifSites))
+	return fmt.Sprintf("stage A (deterministic): 2-6 tasks, each a real goroutine with private Buffer / ValueReader / destinations / Decode targets executing 1-5 operations drawn from the whole exported API on 1-4 SHARED read-only documents; half of the scenarios make all tasks run the same function. The library is an AST-instrumented copy of /repo's working tree with a yield at every function entry, loop body, Ragel state label and in front of every other statement (%d sites in this build); simulator-owned handler callbacks run between yields. Exactly one task is runnable; the schedule tape names which task runs next and for how many yields. Three schedule families: random quanta (1..256 yields); preemption-bounded (1-3 preemptions in all, each at a yield count derived from the task's own sequential run, another task running to completion in the gap); and a bounded-exhaustive single-preemption sweep (one block of 1,024 consecutive scenario indices in eight shares one two-task base scenario and preempts task k/512 after exactly k%%512+1 yields). One scenario in six makes every task do identical work. Documents include objects with many distinct field names, arrays of records, and string tokens whose length sits around a power of two (256..64 Ki) with a late first escape. Error texts (read right after the call returns) are part of the compared result. Oracle: every operation's outcome equals its outcome when the same scenario runs one task after another in the same binary; shared documents unchanged. Non-trivial: at least one task switch landed inside a library call; distinct = distinct hashes of the (task, yield-site kind) switch sequence plus operations.", len(rjson.VerifSites))
 }
 func (c18) Assumptions() []string {
 	return []string{
@@ -35,7 +35,7 @@ func (c18) Assumptions() []string {
 	}
 }
 func (c18) Required(tier string) []string {
-	return []string{"S-switch", "switch-at-state-label", "switch-at-loop", "switch-at-func-entry", "switch-inside-fp", "switch-inside-handler-traversal", "same-function-in-all-tasks", "all-tasks-deep-in-user-recursion"}
+	return []string{"S-switch", "switch-at-state-label", "switch-at-loop", "switch-at-func-entry", "switch-inside-fp", "switch-inside-handler-traversal", "same-function-in-all-tasks", "all-tasks-deep-in-user-recursion", "switch-between-two-statements", "preemption-bounded-schedule", "single-preemption-sweep", "identical-work-in-all-tasks"}
 }
 func (c18) Gen(r *Rand, sc *Scenario, tier string) { genC18(r, sc, tier) }
 
@@ -46,7 +46,24 @@ type ytask struct {
 	done    bool
 	outs    []Outcome
 	curOp   string
+	yields  int // yields this task has made so far
+	// shared-state aiming: yields made at sites inside functions that mention a mutable package-level
+	// variable, and (quantum == -2) how many more of those to run before parking
+	sharedYields int
+	sharedLeft   int
 }
+
+// sharedSite[i]: yield site i lies in a function that mentions a package-level variable some
+// function may modify (found by the instrumenter; none on a tree without such state).
+var sharedSite = func() []bool {
+	out := make([]bool, len(rjson.VerifSites))
+	for i, s := range rjson.VerifSites {
+		out[i] = s[3] == "shared"
+	}
+	return out
+}()
+
+const aimShared = 1 << 50
 
 type ysched struct {
 	cur      *ytask
@@ -59,7 +76,24 @@ type ysched struct {
 func (s *ysched) yield(site int) {
 	s.yields++
 	t := s.cur
-	if t == nil || t.quantum < 0 {
+	if t == nil {
+		return
+	}
+	t.yields++
+	if site < len(sharedSite) && sharedSite[site] {
+		t.sharedYields++
+		if t.quantum == -2 {
+			t.sharedLeft--
+			if t.sharedLeft <= 0 {
+				t.quantum = -1
+				s.lastSite = site
+				s.yielded <- struct{}{}
+				<-t.run
+			}
+			return
+		}
+	}
+	if t.quantum < 0 {
 		return
 	}
 	t.quantum--
@@ -72,7 +106,7 @@ func (s *ysched) yield(site int) {
 }
 
 // runInterleaved executes the scenario under the schedule tape.
-func runInterleaved(sc *Scenario, st *Stats, tape *Tape, docs [][]byte) [][]Outcome {
+func runInterleaved(sc *Scenario, st *Stats, tape *Tape, docs [][]byte) ([][]Outcome, []int, []int) {
 	s := &ysched{yielded: make(chan struct{})}
 	rjson.SetVerifYield(s.yield)
 	defer rjson.SetVerifYield(nil)
@@ -104,6 +138,20 @@ func runInterleaved(sc *Scenario, st *Stats, tape *Tape, docs [][]byte) [][]Outc
 			e--
 			idx = (e >> 8) % len(runnable)
 			q = e&0xff + 1
+		} else if e < 0 {
+			// -(task id + 64*quantum): a task named by its id (the first runnable one if it has
+			// finished) and a quantum of any size
+			v := -e
+			q = v / 64
+			for i, t := range runnable {
+				if t.id == v%64 {
+					idx = i
+				}
+			}
+			if q >= aimShared {
+				runnable[idx].sharedLeft = q - aimShared
+				q = -2
+			}
 		}
 		t := runnable[idx]
 		t.quantum = q
@@ -128,6 +176,8 @@ func runInterleaved(sc *Scenario, st *Stats, tape *Tape, docs [][]byte) [][]Outc
 				st.probe("switch-at-loop")
 			case "func":
 				st.probe("switch-at-func-entry")
+			case "stmt":
+				st.probe("switch-between-two-statements")
 			}
 			if len(site[0]) > 11 && site[0][:11] == "internal/fp" {
 				st.probe("switch-inside-fp")
@@ -149,10 +199,14 @@ func runInterleaved(sc *Scenario, st *Stats, tape *Tape, docs [][]byte) [][]Outc
 		st.Events += s.yields
 	}
 	out := make([][]Outcome, len(tasks))
+	ys := make([]int, len(tasks))
+	sh := make([]int, len(tasks))
 	for i, t := range tasks {
 		out[i] = t.outs
+		ys[i] = t.yields
+		sh[i] = t.sharedYields
 	}
-	return out
+	return out, ys, sh
 }
 
 func (c18) Exec(sc *Scenario, st *Stats) *Violation {
@@ -182,10 +236,60 @@ func (c18) Exec(sc *Scenario, st *Stats) *Violation {
 		st.probe("all-tasks-deep-in-user-recursion")
 	}
 	// reference: the same machinery with an empty schedule = one task after another
-	seq := runInterleaved(sc, nil, NewTape(nil), buildDocs(sc))
+	seq, seqYields, seqShared := runInterleaved(sc, nil, NewTape(nil), buildDocs(sc))
 	docs := buildDocs(sc)
 	snap := buildDocs(sc)
-	con := runInterleaved(sc, st, NewTape(sc.Sched), docs)
+	sched := sc.Sched
+	if sc.cfg("single-preemption") == 1 {
+		// (a, x, b) triples: task a is stopped after 1 + x mod (the yields it makes when run alone)
+		// yields, task b runs to completion in the gap
+		sched = nil
+		ran := make([]int, len(sc.Tasks))
+		for i := 0; i+2 < len(sc.Sched); i += 3 {
+			a, x, b := sc.Sched[i]%len(sc.Tasks), sc.Sched[i+1], sc.Sched[i+2]%len(sc.Tasks)
+			if x < 0 {
+				continue
+			}
+			if sc.cfg("aim-at-shared-state") == 1 {
+				// stop the task at one of its yields inside a function that touches mutable package-level
+				// state, if it makes any (a tree without such state has no such yields: plain preemption then)
+				for k := 0; k < len(sc.Tasks) && seqShared[a] == 0; k++ {
+					a = (a + 1) % len(sc.Tasks)
+				}
+				if b == a {
+					b = (a + 1) % len(sc.Tasks)
+				}
+				if seqShared[a] > 0 {
+					n := 1 + x%seqShared[a]
+					if sc.cfg("sweep-block") != 0 {
+						n = 1 + x
+					}
+					sched = append(sched, -(a + 64*(aimShared+n)), -(b + 64*(1<<40)))
+					st.probe("preemption-aimed-at-shared-state-site")
+					st.probe("preemption-bounded-schedule")
+					continue
+				}
+			}
+			left := seqYields[a] - ran[a]
+			if left <= 1 {
+				continue
+			}
+			n := 1 + x%left
+			if sc.cfg("sweep-block") != 0 {
+				n = 1 + x // sweep: the offset itself; beyond the task's last yield nothing is preempted
+			}
+			ran[a] += n
+			sched = append(sched, -(a + 64*n), -(b + 64*(1<<40)))
+			st.probe("preemption-bounded-schedule")
+		}
+		if sc.cfg("sweep-block") != 0 {
+			st.probe("single-preemption-sweep")
+		}
+	}
+	if sc.cfg("identical-tasks") == 1 {
+		st.probe("identical-work-in-all-tasks")
+	}
+	con, _, _ := runInterleaved(sc, st, NewTape(sched), docs)
 	for i := range docs {
 		if !bytes.Equal(docs[i], snap[i]) {
 			return &Violation{Class: "shared-input-modified", Task: -1, Op: -1, Sig: "C18/shared-input-modified", Detail: fmt.Sprintf("shared document %d was modified", i)}
